@@ -24,6 +24,9 @@ Suites
              the observed objects, per-gate parameter reads, order of random draws replayed in the
              scheduler model lean/QV/Model/Parallel.lean; every result against the job run alone
   final      circuit._final_state after every prefix of a history = the model's St.final
+  consistency  (tools/props/C14_consistency.py) every result object, fresh and after to_dict/from_dict
+             and dump/load: nshots = rows = sum of frequencies, all views histograms of the same rows,
+             probabilities = frequencies / nshots where derived from samples
   gate-binding  (tools/props/C14_gates.py) plain executions interleaved with executions that take a
              Circuit as initial state, and the gate-level results m = circuit.add(gates.M(...)) read
              in between, against lean/QV/Model/GateBinding.lean and against the last execution
@@ -1293,4 +1296,6 @@ def run(ctx):
     C14_parallel.run_suites(ctx)
     from props import C14_gates
     C14_gates.run_suites(ctx)
+    from props import C14_consistency
+    C14_consistency.run_suites(ctx)
     suite_writes(ctx)
